@@ -12,6 +12,8 @@ const MAXC: usize = 3;
 #[repr(align(64))]
 struct SlotBuf([u8; SLOT_BYTES * MAXC]);
 
+/// A class id below NC that is left unconfigured (non-contiguous class ids); usize::MAX = none.
+static mut GAP_CLASS: usize = usize::MAX;
 /// Ghost set of offline trees.
 static mut OFFLINE: [bool; L2T] = [false; L2T];
 
@@ -137,17 +139,22 @@ fn inv_clauses<const NC: usize>(words: &[u32; L2T], slots: &[u64; NC], lf: &[usi
 fn with_alloc<const NC: usize, R>(c: &Cfg<NC>, f: impl FnOnce(&LLFree) -> R) -> (R, [u32; L2T], [u64; NC], [usize; L2T]) {
     let mut buf = SlotBuf([0; SLOT_BYTES * MAXC]);
     let mut classes = [(Class(0), 1usize); NC];
+    let gap = unsafe { GAP_CLASS };
+    let mut n = 0;
     let mut i = 0;
     while i < NC {
-        classes[i] = (Class(i as u8), nslots(c, i));
+        if i != gap {
+            classes[n] = (Class(i as u8), nslots(c, i));
+            n += 1;
+        }
         i += 1;
     }
-    let classing = Classing::new(&classes, c.default, kpolicy::policy);
+    let classing = Classing::new(&classes[..n], c.default, kpolicy::policy);
     let frames = L2T * TREE_FRAMES;
     let locals = Locals::new(&mut buf.0[..], &classing).unwrap();
     let mut i = 0;
     while i < NC {
-        if nslots(c, i) == 1 {
+        if nslots(c, i) == 1 && i != gap {
             set_slot(&locals, Class(i as u8), 0, c.slots[i]);
         }
         i += 1;
@@ -176,7 +183,7 @@ fn with_alloc<const NC: usize, R>(c: &Cfg<NC>, f: impl FnOnce(&LLFree) -> R) -> 
         let mut slots = [0u64; NC];
         let mut i = 0;
         while i < NC {
-            if nslots(c, i) == 1 {
+            if nslots(c, i) == 1 && i != gap {
                 slots[i] = crate::local::verif_contracts::slot_bits(&alloc.locals, Class(i as u8), 0);
             }
             i += 1;
@@ -1326,3 +1333,30 @@ path_harness!(c10_drained_base_order_modular_2c, [kani::stub(crate::trees::Trees
 path_harness!(c11_single_slot_modular, [kani::stub(crate::trees::Trees::search_best, crate::trees::Trees::search_best_complete), kani::stub(crate::llfree::LLFree::get_local, crate::llfree::LLFree::get_local_c0),
     kani::stub(crate::llfree::LLFree::search_and_reserve, crate::llfree::LLFree::search_and_reserve_c0), kani::stub(crate::llfree::LLFree::steal_global, crate::llfree::LLFree::steal_global_c0),
     kani::stub(crate::llfree::LLFree::steal_local, crate::llfree::LLFree::steal_local_g), kani::stub(crate::llfree::LLFree::demote_local, crate::llfree::LLFree::demote_local_g)], check_c11_modular());
+
+
+/// tree_stats with NON-CONTIGUOUS class ids (classes 0 and 2 configured, 1 not): same clauses.
+fn check_tree_stats_gap() {
+    kpolicy::init(false);
+    unsafe { GAP_CLASS = 1 };
+    let mut c = any_cfg::<3>(false);
+    c.slots[1] = 0; // the unconfigured class has no slot
+    kani::assume(c.default.0 != 1);
+    kani::assume(inv(&c.words, &c.slots, &c.lf, &c.offline, c.last_slots));
+    let mut t = 0;
+    while t < L2T {
+        kani::assume((c.words[t] >> 29) & 7 != 1); // no tree carries the unconfigured class
+        t += 1;
+    }
+    let (s, _, _, _) = with_alloc(&c, |a| a.tree_stats());
+    let mut free = 0;
+    let mut k = 0;
+    while k < 8 {
+        free += s.classes[k].free_frames;
+        k += 1;
+    }
+    clause!(s.free_frames == sum_lf(&c.lf, &c.offline), "C04: the fast free count equals the exact count minus the frames of offline trees");
+    clause!(free == s.free_frames, "C14: the per-class free counts sum to the fast total free count");
+    unsafe { GAP_CLASS = usize::MAX };
+}
+l2_harness!(l2_tree_stats_gap_classes, check_tree_stats_gap());
